@@ -565,6 +565,45 @@ pub fn run(report: &mut Report, replay: Option<&str>) {
         }
         for (k, v) in stats.counts { r.count(&format!("twins:{}", k), v); }
     });
+    // ---- Luau mode: `init` and its siblings in ONE directory writing the same relative literal
+    let siblings_per_thread: usize = if thorough { 60 } else { 12 };
+    report.parallel(threads, |tid, r| {
+        let mut model = Model::spawn();
+        let mut stats = Stats::default();
+        let mut rng = Rng::new(seed.wrapping_mul(919).wrapping_add(tid as u64));
+        for _ in 0..siblings_per_thread {
+            let case = g::init_siblings(&mut rng);
+            let rendered = g::render(&case);
+            let combos = combos_for(&mut rng, thorough);
+            case_stats(r, &case, &rendered);
+            r.hist("family", "init-and-siblings-same-literal");
+            let failures = check_rendered(&mut model, &mut stats, &rendered, &combos);
+            r.case(Some(&rendered.files));
+            if !failures.is_empty() {
+                report_failures(&mut model, r, Some(&case), &rendered, &combos, failures);
+            }
+        }
+        for (k, v) in stats.counts { r.count(&format!("siblings:{}", k), v); }
+    });
+    // ---- enumerated: the final statement of a module around "exactly one value"
+    {
+        let mut model = Model::spawn();
+        let mut stats = Stats::default();
+        let mut rng = Rng::new(seed.wrapping_mul(17));
+        for case in g::return_shapes() {
+            let rendered = g::render(&case);
+            let combos = combos_for(&mut rng, thorough);
+            case_stats(report, &case, &rendered);
+            report.hist("family", "return-shapes");
+            let failures = check_rendered(&mut model, &mut stats, &rendered, &combos);
+            report.case(Some(&rendered.files));
+            if !failures.is_empty() {
+                report_failures(&mut model, report, Some(&case), &rendered, &combos, failures);
+            }
+        }
+        for (k, v) in stats.counts { report.count(&format!("return-shapes:{}", k), v); }
+        report.exhaustive.insert("module final statement: none / return with 0, 2, 3 values × direct or nested × once or twice × mode".to_owned(), true);
+    }
     // ---- random graphs
     let per_thread: usize = if thorough { 260 } else { 40 };
     report.parallel(threads, |tid, r| {
